@@ -248,11 +248,16 @@ func setupCodes(r *vf.Run) {
 	others := otherStrings(rnd, 20000)
 	classes := map[string]int{}
 	for i, c := range others {
-		got, err := hc.ValidatePin(c.s)
+		var got string
+		var err error
+		panicked, text := vf.Recover(func() { got, err = hc.ValidatePin(c.s) })
 		want := pinValid(c.s)
 		classes[c.class]++
 		r.Distinct("non_code_string_class", c.class)
 		switch {
+		case panicked:
+			r.Violation("pin:panics:"+c.class, fmt.Sprintf("ValidatePin(%q) panicked; %d bytes, %d runes", c.s, len(c.s), utf8.RuneCountInString(c.s)),
+				map[string]interface{}{"string": c.s, "bytes": vf.Hex([]byte(c.s)), "class": c.class, "panic": text})
 		case !want && err == nil:
 			r.Violation("pin:accepted-invalid:"+c.class, fmt.Sprintf("ValidatePin(%q) accepted (returned %q); %d bytes, %d runes", c.s, got, len(c.s), utf8.RuneCountInString(c.s)),
 				map[string]interface{}{"string": c.s, "bytes": vf.Hex([]byte(c.s)), "returned": got, "class": c.class})
